@@ -182,6 +182,13 @@ def main():
                      'args': {'heuristic': heur, 'label_column': label, 'combination_number_upper_bound': cap,
                               'target_ranking_only': 'True' if mode == 'target' else 'False'}})
         meta.append((kind, mode, label, cap))
+        if kind == 'scoring' and not any(' AND_REL ' in n for n in names) and len(names) >= 3 and rng.random() < 0.5:
+            other = rng.choice([n for n in names if n != label])
+            jobs[-1] = dict(jobs[-1], batches=2, label_seq=[label, other])
+    for names_x, seq_x in ((['a', 'b', 'clicked', 'converted', 'c'], ['clicked', 'converted']), (['x', 'label', 'y'], ['label', 'y', 'label'])):
+        jobs.append({'op': 'rank_graph', 'columns': names_x, 'frame': mkframe(rng, names_x, 10), 'batches': len(seq_x), 'label_seq': seq_x, 'nodes': 1,
+                     'args': {'heuristic': 'MI-numba-randomized', 'label_column': seq_x[0], 'combination_number_upper_bound': 2 ** 15, 'target_ranking_only': 'True'}})
+        meta.append(('scoring', 'target', seq_x[0], 2 ** 15))
     if tier != 'quick':
         names = [f'c{i:03d}' for i in range(150)] + ['label']
         jobs.append({'op': 'rank_graph', 'columns': names, 'frame': mkframe(rng, names, 6), 'batches': 1,
@@ -196,6 +203,12 @@ def main():
             if r is None or 'ok' not in r:
                 V.violation('raises:' + key, f'mixed_rank_graph failed: {PC.failure_text(r)}', job)
                 continue
+            for b_i, ob in enumerate(r['ok'][1:], start=1):
+                # a later ranking of the same frame against another target, in the same process
+                lab_b = job['label_seq'][b_i]
+                recs.append({'cols': job['columns'], 'rel': [n for n in job['columns'] if ' AND_REL ' in n], 'label': lab_b, 'mode': mode, 'kind': kind,
+                             'cap': cap, 'ncand': len(ob['combos']), 'ndup': len(ob['combos']) - len({frozenset(c) for c in ob['combos']}),
+                             'trip': [[a, b, int(round(s * 2 ** 20)) if s == s else 0] for a, b, s in ob['trip']], 'key': key + f' then label={lab_b!r}'})
             ob = r['ok'][0]
             recs.append({'cols': job['columns'], 'rel': [n for n in job['columns'] if ' AND_REL ' in n], 'label': label, 'mode': mode, 'kind': kind,
                          'cap': cap, 'ncand': len(ob['combos']), 'ndup': len(ob['combos']) - len({frozenset(c) for c in ob['combos']}), 'trip': [[a, b, int(round(s * 2 ** 20)) if s == s else 0] for a, b, s in ob['trip']], 'key': key})
@@ -216,7 +229,7 @@ def main():
         while not res.ok and guard < 10:
             guard += 1
             badrec = rest[res.depth - 1] if 0 < res.depth <= len(rest) else rest[0]
-            job = next(j for j in jobs if j['columns'] == badrec['cols'] and j['args']['label_column'] == badrec['label'])
+            job = next(j for j in jobs if j['columns'] == badrec['cols'] and (j['args']['label_column'] == badrec['label'] or badrec['label'] in (j.get('label_seq') or [])))
             spec_pairs = None
             # name the failing clause with the harness-side mirror
             C = set(badrec['cols']); R = set(badrec['rel']); NRc = C - R
